@@ -16,6 +16,11 @@ static ALLOC: c15::Counting = c15::Counting;
 
 fn main() {
     let ctx = vmc::report::Ctx::from_args();
+    // the process environment is part of the environment: whatever the library derives from it shows up as a
+    // difference from what the arguments alone imply
+    for (k, v) in [("USER", "vmc-env-user"), ("USERNAME", "vmc-env-username"), ("LOGNAME", "vmc-env-logname"), ("LANG", "tlh_QX.UTF-8"), ("LC_ALL", "tlh_QX.UTF-8"), ("LC_MESSAGES", "tlh_QX.UTF-8"), ("LANGUAGE", "tlh"), ("HOSTNAME", "vmc-env-host"), ("IPP_PORT", "1"), ("CUPS_SERVER", "vmc-env-cups")] {
+        std::env::set_var(k, v);
+    }
     vmc::install_watchdog(if ctx.tier == vmc::report::Tier::Thorough { 6 * 3600 } else { 45 * 60 }, format!("check {}", ctx.id));
     // logging enabled is part of the environment: statements inside log macros only run when a logger accepts them.
     // C15 measures cost without trace output (error level only).
